@@ -16,6 +16,7 @@ Fixpoint chkq (fuel : nat) (lo hi a b c : Q) : bool :=
   else match fuel with
        | O => false
        | S f =>
+           if negb (inb lo hi a && inb lo hi c) then false else   (* an end point (a point of the curve) is outside: reject at once *)
            let '(a1, b1, c1) := qsplit_l a b c (1#2) in
            let '(a2, b2, c2) := qsplit_r a b c (1#2) in
            chkq f lo hi (Qred a1) (Qred b1) (Qred c1) && chkq f lo hi (Qred a2) (Qred b2) (Qred c2)
@@ -26,6 +27,7 @@ Fixpoint chkc (fuel : nat) (lo hi a b c d : Q) : bool :=
   else match fuel with
        | O => false
        | S f =>
+           if negb (inb lo hi a && inb lo hi d) then false else
            let '(a1, b1, c1, d1) := csplit_l a b c d (1#2) in
            let '(a2, b2, c2, d2) := csplit_r a b c d (1#2) in
            chkc f lo hi (Qred a1) (Qred b1) (Qred c1) (Qred d1) && chkc f lo hi (Qred a2) (Qred b2) (Qred c2) (Qred d2)
